@@ -134,3 +134,77 @@ def rle_leg(rep, srcdir, tier, collect_into=None):
             k = int(line.split()[1].rstrip(":"))
             fails.append((line, behs[k - 1]))
     return fails
+
+
+def scan_leg(rep, srcdir, tier):
+    """Scan.tla: (1) every entry of the working tree's automaton tables against the KMP
+    definition; (2) stimuli replayed through the real scan(), results judged by the contract."""
+    out = vlib.subdir("harness")
+    dump = os.path.join(out, "dump_scantab")
+    rc, err = vlib._cc(["gcc", "-O0", "-I", srcdir, os.path.join(vlib.VERIF, "harness", "dump_scantab.c"), "-o", dump])
+    if rc != 0:
+        raise vlib.Infra("dump_scantab build failed: " + err[-1500:])
+    tab = os.path.join(out, "scantab.json")
+    with open(tab, "w") as f:
+        f.write(subprocess.run([dump], capture_output=True, text=True, check=True).stdout)
+    exe = vlib.build_harness("replay_scan", "replay_scan.c", srcdir)
+    os.environ["SCANTAB"] = tab
+    full = set(range(0, 6 * 32 - 47))
+    cfgs = [dict(NWords={3, 6}, Fillers={1, 2}, Offsets=full, MaxPlants=1, Starts={0, 5, 32, 63}, Skips={0, 33, 100}, Misses={24, 47}),
+            dict(NWords={6}, Fillers={0}, Offsets={0, 3, 40, 81, 90, 112}, MaxPlants=2, Starts={0, 1, 31}, Skips={0, 64}, Misses=set())]
+    if tier == "thorough":
+        cfgs = [dict(NWords={3, 4, 6}, Fillers={0, 1, 2}, Offsets=full, MaxPlants=1, Starts=set(range(0, 64, 3)) | {63}, Skips={0, 1, 31, 32, 33, 64, 100, 130},
+                     Misses={1, 8, 24, 40, 46, 47}),
+                dict(NWords={6}, Fillers={0, 2}, Offsets=set(range(0, 113, 7)) | {80, 81}, MaxPlants=2, Starts={0, 1, 31, 33}, Skips={0, 33, 64}, Misses=set())]
+    fails = []
+    for i, c in enumerate(cfgs):
+        behs, r = gen("Scan", c, ["TablesOK", "Export"], "scan%d" % i, timeout=3000, workers=12)
+        if behs is None:
+            if "TablesOK" in r.violated:
+                return [("scanner table entry differs from the KMP automaton of the header pattern (Scan.tla TablesOK)", {"tables": "src/scantab.h"})]
+            raise vlib.Infra("Scan.tla failed: %s" % r.text[-1500:])
+        rep.add("states", r.distinct)
+        rep.add("transitions", r.generated)
+        rep.add("scan_table_entries_checked", 96 + 49 * 256)
+        lines = []
+        for b in behs:
+            ws = " ".join("%04x%04x" % (hi, lo) for hi, lo in b["words"])
+            lines.append("%d %s %d %d %d" % (len(b["words"]), ws, b["start"], b["pre"], b["skip"]))
+        p = subprocess.run([exe], input="\n".join(lines) + "\n", capture_output=True, text=True, timeout=900)
+        res = [l.split()[2:] for l in p.stdout.splitlines() if l.startswith("R ")]
+        if p.returncode != 0 or len(res) != len(behs):
+            raise vlib.Infra("replay_scan failed: rc=%s %s" % (p.returncode, p.stderr[-500:]))
+        rep.add("scan_stimuli_replayed", len(behs))
+        rep.add("traces_validated_against_impl", len(behs))
+        for b, got in zip(behs, res):
+            why = None
+            if "LOOP" in got:
+                why = "scan() does not make progress"
+            else:
+                got = [int(x) for x in got]
+                occ_ends = {o + 80 for o in b["all"] if o >= b["start"]}
+                if b["skip"] == 0:
+                    if got != b["chain"]:
+                        why = "reported %s, occurrences by definition %s" % (got, b["chain"])
+                else:
+                    must = [o for o in b["all"] if o >= b["start"] + b["skip"] + 31]
+                    if got and got[0] not in occ_ends:
+                        why = "reported a candidate at %d where the pattern does not occur" % got[0]
+                    elif must and (not got or got[0] > min(must) + 80):
+                        why = "missed the occurrence at bit %d (skip %d)" % (min(must), b["skip"])
+                    elif got:
+                        # after the first report the enumeration must be complete
+                        rest, pos, occs = [], got[0], sorted(b["all"])
+                        while True:
+                            nxt = [o for o in occs if o >= pos]
+                            if not nxt:
+                                break
+                            pos = nxt[0] + 80
+                            rest.append(pos)
+                        if got[1:] != rest:
+                            why = "after the first candidate reported %s, expected %s" % (got[1:], rest)
+            if why and len(fails) < 5:
+                fails.append(("scan() deviates from Scan.tla: " + why, b))
+        if behs:
+            rep.sample({"scan_stimulus": {k: behs[len(behs) // 2][k] for k in ("start", "pre", "skip", "chain")}})
+    return fails
